@@ -540,6 +540,7 @@ where   O: quote::ToTokens,
 
 fn change_sig_get_args_idents( met: &mut ImplItemFn ) -> Vec<Box<Pat>> {
     
+    check_inter_actor(&met.sig);
     if super::if_args_and_clean_pats(&mut met.sig){
         let (live_arguments,live_sig) = super::get_live_args_and_sig(&met.sig );
         let (args_idents,_) = super::args_to_pat_type(&live_arguments);
@@ -570,6 +571,7 @@ fn take_doc_web_attrs(met: &mut ImplItemFn) -> Vec<Attribute> {
 
 
 fn set_args_inter_vars(interact: bool, met: &mut ImplItemFn, args: &mut Vec<FnArg>, inter_vars: &mut Option<InterVars>, one: Option<&OneshotChannel> ){
+    check_inter_actor(&met.sig);
     let _ = super::if_args_and_clean_pats(&mut met.sig);
     let (live_arguments,live_sig) = super::get_live_args_and_sig(&met.sig );
     if let Some(i_vars) = get_some_inter_vars( interact, &met.sig, one){
@@ -584,6 +586,16 @@ fn set_args_inter_vars(interact: bool, met: &mut ImplItemFn, args: &mut Vec<FnAr
     }
 }
 
+
+/// the generated code binds the actor as `inter_actor`, 
+/// a parameter of the same name would be shadowed by it
+fn check_inter_actor( sig: &Signature ){
+    let words = Some(vec![quote::format_ident!("{}",crate::INTER_ACTOR)]);
+    if let Some((inter_var,pat)) = model::check_send_recv( &sig.inputs, words ){
+        let msg = error::var_name_conflict(&inter_var,"parameter");
+        abort!(pat,msg;note= error::INTER_ACTOR_RESTRICT_NOTE);
+    }
+}
 
 fn get_some_inter_vars(interact: bool, sig: &Signature, one: Option<&OneshotChannel>) -> Option<InterVars> {
     if interact { 
